@@ -7,6 +7,7 @@
 //	reset <ecxhex>          => ok|err                      fresh dir, 1.ecx written, NewEcVolume
 //	find <key>              => ok <offUnits> <size> | notfound | err
 //	del <key>               => ok|err <ecxdiff> <ecjdiff>  DeleteNeedleFromEcx, then both files (as diffTok against the previous contents)
+//	reopen                  => ok|err <ecjdiff>            ev.Close(), NewEcVolume on the SAME files (a new session); journal as found
 //	idx                     => ok|err <idxhex>             WriteIdxFileFromEcIndex (ecx+ecj as they are)
 //	rebuild                 => ok|err <ecxhex> <ecjExists> volume closed, ORIGINAL ecx restored, RebuildEcxFile
 //	sreset <idxhex>         => ok|err <sdxhex>             NewSortedFileNeedleMap (generates .sdx)
@@ -164,6 +165,29 @@ func opDel(key uint64) {
 	}))
 }
 
+// opReopen ends the session (Close) and starts a new one on the same .ecx/.ecj (NewEcVolume opens
+// the existing journal at position 0, without O_APPEND).
+func opReopen() {
+	tr.Op("reopen", nil, hx.Guard(func() []string {
+		if st.dir == "" {
+			return []string{"novolume"}
+		}
+		if st.ev != nil {
+			st.ev.Close()
+			st.ev = nil
+		}
+		ev, err := erasure_coding.NewEcVolume(types.HardDriveType, st.dir, st.dir, "", 1)
+		if err != nil {
+			return []string{"err"}
+		}
+		st.ev = ev
+		ecj := readFile(filepath.Join(st.dir, "1.ecj"))
+		out := []string{"ok", diffTok(st.ecj, ecj)}
+		st.ecj = ecj
+		return out
+	}))
+}
+
 func opIdx() {
 	tr.Op("idx", nil, hx.Guard(func() []string {
 		if st.dir == "" {
@@ -257,12 +281,37 @@ func maxOff() uint64 {
 	return 1 << 32
 }
 
-func genIndex(r *hx.Rng, n int) []ent {
+// genIndex: skew 0 = mixed; 1 = mostly small ids plus a few with the top bit set; 2 = mostly ids
+// with the top bit set plus a few small ones (pairs more than 2^63 apart, unevenly distributed)
+func genIndex(r *hx.Rng, n int, skew int) []ent {
 	seen := map[uint64]bool{}
 	var es []ent
+	few := 1 + r.Intn(3)
 	for len(es) < n {
 		var k uint64
-		switch r.Intn(4) {
+		mode := r.Intn(4)
+		if skew == 1 {
+			mode = 4
+			if len(es) < few {
+				mode = 5
+			}
+		} else if skew == 2 {
+			mode = 5
+			if len(es) < few {
+				mode = 4
+			}
+		}
+		switch mode {
+		case 4:
+			k = uint64(r.Intn(1 << 20))
+			if r.Chance(1, 4) {
+				k = r.U64() >> 2
+			}
+		case 5:
+			k = 1<<63 | r.U64()>>uint(1+r.Intn(40))
+			if r.Chance(1, 4) {
+				k = ^uint64(0) - uint64(r.Intn(1000))
+			}
 		case 0:
 			k = uint64(r.Intn(3*n + 3))
 		case 1:
@@ -305,8 +354,8 @@ func bytesOf(es []ent) []byte {
 	return b
 }
 
-func ecCase(r *hx.Rng, n int) {
-	es := genIndex(r, n)
+func ecCase(r *hx.Rng, n int, skew int) {
+	es := genIndex(r, n, skew)
 	opReset(bytesOf(es))
 	// candidates: every present key and its absent neighbours
 	var cands []uint64
@@ -335,6 +384,10 @@ func ecCase(r *hx.Rng, n int) {
 		opFind(k)
 	}
 	for i, k := range cands {
+		// sessions: close + reopen the volume between deletes
+		if (len(cands) >= 3 && (i == len(cands)/3 || i == 2*len(cands)/3)) || r.Chance(1, 25) {
+			opReopen()
+		}
 		opDel(k)
 		opFind(k)
 		if len(cands) > 1 {
@@ -352,7 +405,7 @@ func ecCase(r *hx.Rng, n int) {
 }
 
 func sortedCase(r *hx.Rng, n int) {
-	es := genIndex(r, n)
+	es := genIndex(r, n, r.Intn(3))
 	// the .idx given to the sorted-file map holds live entries only, already sorted, so the
 	// generated .sdx equals it
 	var live []ent
@@ -383,13 +436,16 @@ func generate(a *hx.Args) {
 	r := hx.NewRng(a.Seed)
 	// small exhaustive-ish sizes first, then random sizes up to 200
 	for n := 0; n <= 6; n++ {
-		ecCase(r, n)
+		ecCase(r, n, 0)
+	}
+	for n := 2; n <= 9; n++ {
+		ecCase(r, n, 1+n%2)
 	}
 	cases := a.N(10)
 	for i := 0; i < cases; i++ {
-		ecCase(r, r.Intn(201))
+		ecCase(r, r.Intn(201), i%3)
 	}
-	ecCase(r, 200)
+	ecCase(r, 200, 0)
 	for n := 0; n <= 3; n++ {
 		sortedCase(r, n)
 	}
@@ -423,6 +479,8 @@ func replay(path string) {
 			opFind(u(arg(0)))
 		case "del":
 			opDel(u(arg(0)))
+		case "reopen":
+			opReopen()
 		case "idx":
 			opIdx()
 		case "rebuild":
